@@ -45,7 +45,8 @@ class PointwiseAffineTransform(Transform):
         """Return log abs det with input batch shape."""
 
         if self._log_abs_scale.numel() > 1:
-            return self._log_abs_scale.expand(batch_shape).sum()
+            # (the leading 1 admits a scale written with a singleton batch dimension, e.g. (1, C, 1, 1))
+            return self._log_abs_scale.expand(1, *batch_shape).sum()
         else:
             # When log_abs_scale is a scalar, we use n*log_abs_scale, which is more
             # numerically accurate than \sum_1^n log_abs_scale.
